@@ -92,10 +92,10 @@ func setupC10(x *Ctx) {
 				x.Ev("op-inv", name, op.Op+">"+op.Target, i)
 				switch op.Op {
 				case "register":
-					n.hub.RegisterRemoteSKI(tski)
+					n.hub.RegisterRemoteSKI(r.spell(tski))
 				case "unregister":
 					before := n.hub.VerifConnections()[tski]
-					n.hub.UnregisterRemoteSKI(tski)
+					n.hub.UnregisterRemoteSKI(r.spell(tski))
 					if n.hub.ServiceForSKI(tski).Trusted() {
 						x.Violate("trusted-after-unregister", "", fmt.Sprintf("hub %s still trusts %s right after UnregisterRemoteSKI returned", name, op.Target))
 						return
@@ -119,9 +119,9 @@ func setupC10(x *Ctx) {
 						st += 100
 					}
 					x.Ev("cancel-sees", name, op.Target, st)
-					n.hub.CancelPairingWithSKI(tski)
+					n.hub.CancelPairingWithSKI(r.spell(tski))
 				case "disconnect":
-					n.hub.DisconnectSKI(tski, "user")
+					n.hub.DisconnectSKI(r.spell(tski), "user")
 				case "autoaccept-on":
 					n.hub.SetAutoAccept(true)
 				case "autoaccept-off":
